@@ -69,7 +69,7 @@ func sysModulePeek(mode string, cfg sys.Config, maxRPC, maxStims int, kinds []st
 	case "gen":
 		c = "SPECIFICATION Spec\n" + consts + "INVARIANTS EmitStims\nCHECK_DEADLOCK FALSE\n"
 	case "trace":
-		c = "SPECIFICATION TSpec\n" + consts + "CONSTRAINT HighWater\nINVARIANTS TypeOK CloseOnce OneWrite StreamInvs WireOrdered Peek\nPOSTCONDITION Report\nCHECK_DEADLOCK FALSE\n"
+		c = "SPECIFICATION TSpec\n" + consts + "CONSTRAINT HighWater\nINVARIANTS TypeOK CloseOnce OneWrite StreamInvs WireOrdered Peek Accepted\nPOSTCONDITION Report\nCHECK_DEADLOCK FALSE\n"
 	}
 	return name, mod, c
 }
@@ -349,8 +349,21 @@ func sysDev(c *vf.Ctx) {
 				runs = append(runs, r)
 			}
 		}
+		var corrupted *sysRun
+		if os.Getenv("VERIF_CORRUPT") != "" && len(runs) > 2 {
+			// demonstration of the binding: one observed field of one line of one run is changed; exactly that run must be rejected
+			corrupted = runs[len(runs)/2]
+			ln := len(corrupted.Lines) / 2
+			corrupted.Lines[ln].Obs.TClose["cli"]++
+			fmt.Printf("CORRUPTED run %d of %d at line %d (tclose.cli+1)\n", len(runs)/2, len(runs), ln)
+		}
 		rej, val := sysValidate(c, cfg, runs, 12)
 		c.TraceValidated(int64(val))
+		if corrupted != nil {
+			ln, ok := rej[corrupted]
+			fmt.Printf("CORRUPTION: rejected=%v at line %d; other runs rejected: %d\n", ok, ln, len(rej)-map[bool]int{true: 1, false: 0}[ok])
+			delete(rej, corrupted)
+		}
 		for r, line := range rej {
 			c.Violation(fmt.Sprintf("system behaviour not allowed by System.tla %s (%s small=%v soft=%v manual=%v gateu=%v)", r.InvViolated, r.Origin, cfg.Small, cfg.Soft, cfg.Manual, cfg.GateU),
 				map[string]any{"first_unmatched_line": line, "trace": r.Lines})
